@@ -89,7 +89,7 @@ class C10(Property):
     )
     assumptions = [
         "tolerances: distances rtol 1e-12 (+1e-9 x scale slack for separation/justification), overlap equivalence skipped when |surface distance| <= 1e-9 x scale",
-        "get_neighbor_distances(True) is compared with the surface distance to any centre-nearest neighbour (ties) and only for pairwise distinct positions",
+        "get_neighbor_distances(True) is compared with the surface distance to any centre-nearest neighbour (ties, including exactly coincident centres)",
     ]
 
     def budget(self, tier):
@@ -187,13 +187,15 @@ class C10(Property):
             E = Deuc.copy()
             np.fill_diagonal(E, np.inf)
             ctx.require(bool(np.all(np.abs(nd - E.min(axis=1)) <= 1e-12 * scale)), "neighbor:value", f"{nd} vs {E.min(axis=1)}")
-            distinct = bool(np.all(E > 0))
-            if distinct:
-                nds = em.get_neighbor_distances(True)
-                for i in range(n):
-                    near = np.flatnonzero(E[i] <= E[i].min() * (1 + 1e-12))
-                    cands = [E[i, j] - R[i] - R[j] for j in near]
-                    ctx.require(any(abs(nds[i] - c) <= 1e-12 * scale for c in cands), "neighbor:surface", f"droplet {i}: {nds[i]} not in {cands}")
+            coincident = int(max((E == 0).sum(axis=1))) + 1 if bool(np.any(E == 0)) else 1
+            if coincident > 1:
+                ctx.cls(f"coincident-centres:{min(coincident, 3)}{'+' if coincident > 3 else ''}")
+            nds = em.get_neighbor_distances(True)
+            for i in range(n):
+                near = np.flatnonzero(E[i] <= E[i].min() * (1 + 1e-12))
+                cands = [E[i, j] - R[i] - R[j] for j in near]
+                tag = ":coincident>=3" if coincident >= 3 else ""
+                ctx.require(any(abs(nds[i] - c) <= 1e-12 * scale for c in cands), "neighbor:surface" + tag, f"droplet {i}: {nds[i]} not in {cands}")
         # --- overlap removal -------------------------------------------------------------
         md = spec["min_distance"]
         slack = 0.0 if spec.get("exact") else 1e-9 * scale
